@@ -4,14 +4,18 @@ pub use methods::dispatch as log;
 
 #[dispatch]
 mod methods {
-    use crate::CelValue;
+    use crate::{CelError, CelResult, CelValue};
 
-    fn log(n: i64) -> i64 {
-        n.ilog10() as i64
+    fn log(n: i64) -> CelResult<i64> {
+        n.checked_ilog10()
+            .map(|v| v as i64)
+            .ok_or_else(|| CelError::value("log: argument must be positive"))
     }
 
-    fn log(n: u64) -> u64 {
-        n.ilog10() as u64
+    fn log(n: u64) -> CelResult<u64> {
+        n.checked_ilog10()
+            .map(|v| v as u64)
+            .ok_or_else(|| CelError::value("log: argument must be positive"))
     }
 
     fn log(n: f64) -> f64 {
